@@ -12,7 +12,7 @@ def load_encoder():
     return mod
 
 
-def make_dataset(mod, rows, e_min, e_step, qbb, outdir, isotope='Test', mode='g0'):
+def make_dataset(mod, rows, e_min, e_step, qbb, outdir, isotope='Test', mode='g0', pdf_only=False):
     """rows[i] = p.d.f. samples for E1 sample i (triangular: len(rows[i]) = n - i).  Writes tab_pdf.data and tab_ocdf.data
     exactly as mkocdfdata.py does; returns the encoder's normalised cumulative tables (e1_cdf, [e2_cdf rows])."""
     n = len(rows)
@@ -26,6 +26,10 @@ def make_dataset(mod, rows, e_min, e_step, qbb, outdir, isotope='Test', mode='g0
     app.ne2 = n
     app.opdf_filename = os.path.join(outdir, 'tab_pdf.data')
     app.ncdf_filename = os.path.join(outdir, 'tab_ocdf.data')
+    if pdf_only:   # end point inside the sampled triangle: rows beyond it are all zero, which only the p.d.f. format can express
+        with contextlib.redirect_stderr(io.StringIO()):
+            app.save_tab_pdf(False)
+        return None, None
     with contextlib.redirect_stderr(io.StringIO()):
         app.fill_tab_cdf()
         app.fill_tab_ncdf()
